@@ -177,6 +177,25 @@ theorem step_wf {s : St} (hI : Inv s) (op : Op) (hw : wfOp s op = true) : isOk (
     · obtain ⟨s1, v, hc, hI'⟩ := cloneFromParts_spec hI he
       (simp only [step, stepClone, stepIntoOwned, stepCloneUnwind, stepClone, getVal_of_some he, hu, hc, bind, Except.bind,
         bindNew_ok hI']; try rfl)
+  | cloneFrom hd hs =>
+    simp [wfOp] at hw
+    obtain ⟨ed, hed⟩ := liveHandle_iff hw.1
+    obtain ⟨es, hes⟩ := liveHandle_iff hw.2
+    obtain ⟨s1, v, s2, _, _, _, _, _, _, hst⟩ := stepCloneFrom_spec hI hed hes
+    simp only [step, hst, isOk]
+  | cloneFromUnwind hd hs =>
+    simp [wfOp] at hw
+    obtain ⟨ed, hed⟩ := liveHandle_iff hw.1
+    obtain ⟨es, hes⟩ := liveHandle_iff hw.2
+    rcases cloneFromPartsUnwind_spec hI hes with ⟨_, hu⟩ | ⟨_, hu⟩
+    · simp only [step, stepCloneFromUnwind, getVal_of_some hed, getVal_of_some hes, hu, isOk]
+    · obtain ⟨s1, v, s2, _, _, _, _, _, _, hst⟩ := stepCloneFrom_spec hI hed hes
+      simp only [step, stepCloneFromUnwind, getVal_of_some hed, getVal_of_some hes, hu, hst, isOk]
+  | readUnwind h1 h2 =>
+    simp [wfOp] at hw
+    obtain ⟨e1, he1⟩ := liveHandle_iff hw.1
+    obtain ⟨e2, he2⟩ := liveHandle_iff hw.2
+    simp only [step, stepReadUnwind_spec hI he1 he2, isOk]
 
 /-- **every well-formed sequence runs to the end**: if each operation refers to live handles / held `Arc`s
     in the state in which it executes (`wfRun`, a decidable check), no error of any kind occurs. -/
@@ -471,6 +490,92 @@ theorem into_std_shared_must_copy :
       ∧ errIs (intoStdSharedAsBorrowed s 0) .readFreed = true
       ∧ isOk (step s (.intoStdCow 0 1)) = true := ⟨_, rfl, by decide, by decide⟩
 
+/-! ## provided trait methods: `clone_from`, and comparisons / hashes whose element operation unwinds
+
+`impl Clone for Cow` defines only `clone` (`src_trait_methods`), so `a.clone_from(&b)` — also reached through
+`Vec<Cow>::clone_from` and `Option<Cow>::clone_from` — is the standard library's `*self = source.clone()`.
+`Op.cloneFrom` / `Op.cloneFromUnwind` / `Op.readUnwind` are ordinary members of `Op`: `run_inv`, `cow_safe`,
+`cow_no_leak`, `freed_at_most_once`, `unique_owner` above quantify over sequences that contain them anywhere. -/
+
+/-- **`clone_from` is clone-then-drop**: in every reachable state, for live destination `hd` and source `hs`,
+    `hd.clone_from(&hs)` is exactly `clone hs` followed by `drop hd` — the clone is complete before anything of the
+    destination is released, the destination's old buffer / reference is released exactly as `Cow::drop` does
+    (never reused, never freed by anything else), and the destination then reads what the SOURCE was built from. -/
+theorem cloneFrom_is_clone_then_drop {ops : List Op} {s : St} (hr : run init ops = .ok s) {hd hs : Nat}
+    {ed es : Entry} (hed : s.vals[hd]? = some (some ed)) (hes : s.vals[hs]? = some (some es)) :
+    ∃ s1 s2, step s (.clone hs) = .ok (s1, .handle s.vals.length es.built)
+      ∧ step s1 (.drop hd) = .ok (s2, .unit)
+      ∧ step s (.cloneFrom hd hs) = .ok (s2, .handle s.vals.length es.built)
+      ∧ step s2 (.deref s.vals.length) = .ok (s2, .content es.built) := by
+  have hI := reachable_inv hr
+  obtain ⟨s1, v, s2, hc, hv, hI1, hcl, hdp, hI2, hst⟩ := stepCloneFrom_spec hI hed hes
+  have hed' : (pushVal s1 v es.built).vals[hd]? = some (some ed) := by
+    simp only [pushVal_vals, hv]
+    exact getElem?_append_of_some _ _ _ _ hed
+  have hne : hd ≠ s.vals.length := by
+    have := lt_of_getElem?_some _ _ _ hed
+    omega
+  have hnew : (killVal s2 hd).vals[s.vals.length]? = some (some ⟨v, es.built⟩) := by
+    simp only [killVal_vals, dropFromParts_vals hdp, pushVal_vals, hv]
+    rw [getElem?_set_ne' (fun e => hne e.symm)]
+    simp
+  refine ⟨pushVal s1 v es.built, killVal s2 hd, ?_, ?_, ?_, ?_⟩
+  · simp only [step, hcl]
+  · simp only [step, getVal_of_some hed', hdp, bind, Except.bind]
+  · simp only [step, hst]
+  · have := read_ok (hI2.ent _ _ hnew)
+    simp only at this
+    simp only [step, getVal_of_some hnew, bind, Except.bind, this]
+
+/-- **a failed `clone_from` changes nothing**: when the element type's `Clone` panics inside `hd.clone_from(&hs)`
+    (Owned source — the only kind whose clone runs user code) the state is untouched: the destination still holds
+    its old value, buffer and elements, the source is intact, no new value or buffer exists.  For Borrowed / Shared
+    sources nothing can unwind and the call is the ordinary `clone_from`. -/
+theorem cloneFromUnwind_changes_nothing {ops : List Op} {s : St} (hr : run init ops = .ok s) {hd hs : Nat}
+    {ed es : Entry} (hed : s.vals[hd]? = some (some ed)) (hes : s.vals[hs]? = some (some es)) :
+    (es.val.kind = .owned ∧ step s (.cloneFromUnwind hd hs) = .ok (s, .unwound)) ∨
+    (es.val.kind ≠ .owned ∧ step s (.cloneFromUnwind hd hs) = step s (.cloneFrom hd hs)) := by
+  have hI := reachable_inv hr
+  rcases cloneFromPartsUnwind_spec hI hes with ⟨hk, hu⟩ | ⟨hk, hu⟩
+  · exact Or.inl ⟨hk, by simp only [step, stepCloneFromUnwind, getVal_of_some hed, getVal_of_some hes, hu]⟩
+  · exact Or.inr ⟨hk, by simp only [step, stepCloneFromUnwind, getVal_of_some hed, getVal_of_some hes, hu]⟩
+
+/-- **a comparison or hash that unwinds changes nothing**: `eq`, `ne`, `lt`, `le`, `gt`, `ge`, `partial_cmp`, `cmp`,
+    `hash`, `hash_slice` only read both values through `deref`; when the element operation panics the state is
+    exactly what it was, in every reachable state and for any two live values -/
+theorem readUnwind_changes_nothing {ops : List Op} {s : St} (hr : run init ops = .ok s) {h1 h2 : Nat}
+    {e1 e2 : Entry} (he1 : s.vals[h1]? = some (some e1)) (he2 : s.vals[h2]? = some (some e2)) :
+    step s (.readUnwind h1 h2) = .ok (s, .unwound) := by
+  simp only [step, stepReadUnwind_spec (reachable_inv hr) he1 he2]
+
+/-- the variant of `clone_from` that REUSES the destination's buffer (`source.deref().clone_into(&mut owned)` on a
+    `Vec` rebuilt from `self`'s words and kept in `ManuallyDrop`, the words written back only afterwards), at the
+    moment the element copy unwinds: `clone_into` has already truncated the buffer to the source's length — the
+    surplus elements are destroyed — and `self` still carries its OLD words -/
+def stepCloneFromInPlaceUnwind (s : St) (hd hs : Nat) : Except Err (St × Ans) :=
+  match getVal s hd, getVal s hs with
+  | .ok ed, .ok es =>
+    match ed.val.kind, es.val.kind, ed.val.ptr with
+    | .owned, .owned, .vec i =>
+      match s.vecs[i]? with
+      | some c => .ok ({ s with vecs := s.vecs.set i { c with content := c.content.take es.val.len } }, .unwound)
+      | none => .error .wildRead
+    | _, _, _ => stepCloneFromUnwind s hd hs
+  | .error er, _ => .error er
+  | _, .error er => .error er
+
+/-- **why `clone_from` must not write into the destination's buffer before it owns the result** (negation by
+    witness, the class of seed C14-7): destination `[1,2,3]`, source `[7]`, the copy unwinds after the truncate —
+    the destination's words still say three elements over a buffer that holds one, so its destructor rebuilds a
+    `Vec` of a length the buffer does not have (the two surplus elements are destroyed a second time): a memory
+    error on the next `drop`, while the provided `clone_from` leaves a state in which the same `drop` is fine -/
+theorem clone_from_in_place_unsound :
+    ∃ s s', run init [.fromOwned [1, 2, 3] 4, .fromOwned [7] 2] = .ok s
+      ∧ stepCloneFromInPlaceUnwind s 0 1 = .ok (s', .unwound)
+      ∧ errIs (step s' (.drop 0)) .badLayout = true
+      ∧ step s (.cloneFromUnwind 0 1) = .ok (s, .unwound)
+      ∧ isOk (step s (.drop 0)) = true := ⟨_, _, rfl, rfl, by decide, rfl, by decide⟩
+
 /-! ## facts of the source that no run can observe (tools/extract.py → Generated/SourceFacts.lean) -/
 
 /-- reading of the arms of `Metadata::kind` as a first-match decision on the capacity word -/
@@ -618,6 +723,61 @@ theorem src_into_std_uncallable :
          ("Kind::Borrowed", "{ Self::Borrowed(UNSAFE { &*T::borrowed_from_parts(value.ptr, &value.metadata) }) }")] :=
   ⟨rfl, rfl⟩
 
+/-- **which methods the impls define** — every `impl` block of cow.rs with the methods it DEFINES, in source order.
+    `Clone` defines only `clone`; `PartialEq` only `eq`; `PartialOrd` only `partial_cmp`; `Ord` only `cmp`; `Hash`
+    only `hash`; `Eq` nothing: every other method of these traits (`clone_from`, `ne`, `lt` `le` `gt` `ge`, `max` `min`
+    `clamp`, `hash_slice`) is the standard library's provided one, which is what `Op.cloneFrom` (= clone, then
+    drop) and `Op.eq` / `Op.deref` / `Op.readUnwind` (reads) model.  An override, a new trait impl or a new inherent
+    method breaks this theorem and has to be modelled and driven before the check passes again. -/
+theorem src_trait_methods :
+    Generated.cow_impl_methods
+      = [("impl<T> Cow<'_, T> where T: Cowable + ?Sized,", "from_parts from_owned from_shared into_owned"),
+         ("impl<'a, T> Cow<'a, T> where T: Cowable + ?Sized,", "from_borrowed"),
+         ("impl<'a, T> Cow<'a, [T]> where T: Clone,", "const_slice"),
+         ("impl<'a> Cow<'a, str>", "const_str"),
+         ("impl<T> Deref for Cow<'_, T> where T: Cowable + ?Sized,", "deref"),
+         ("impl<T> Clone for Cow<'_, T> where T: Cowable + ?Sized,", "clone"),
+         ("impl<T> Drop for Cow<'_, T> where T: Cowable + ?Sized,", "drop"),
+         ("impl<T> Hash for Cow<'_, T> where T: Hash + Cowable + ?Sized,", "hash"),
+         ("impl<'a, T> Default for Cow<'a, T> where T: Cowable + ?Sized, &'a T: Default,", "default"),
+         ("impl<T> Eq for Cow<'_, T> where T: Eq + Cowable + ?Sized", "-"),
+         ("impl<A, B> PartialOrd<Cow<'_, B>> for Cow<'_, A> where A: Cowable + ?Sized + PartialOrd<B>, B: Cowable + ?Sized,", "partial_cmp"),
+         ("impl<T> Ord for Cow<'_, T> where T: Ord + Cowable + ?Sized,", "cmp"),
+         ("impl<'a, T> From<&'a T> for Cow<'a, T> where T: Cowable + ?Sized,", "from"),
+         ("impl<'a, T> From<Arc<T>> for Cow<'a, T> where T: Cowable + ?Sized,", "from"),
+         ("impl<'a> From<std::borrow::Cow<'a, str>> for Cow<'a, str>", "from"),
+         ("impl<'a, T: Cowable> From<Cow<'a, T>> for std::borrow::Cow<'a, T>", "from"),
+         ("impl From<String> for Cow<'_, str>", "from"),
+         ("impl<T> From<Vec<T>> for Cow<'_, [T]> where T: Clone,", "from"),
+         ("impl<T> AsRef<T> for Cow<'_, T> where T: Cowable + ?Sized,", "as_ref"),
+         ("impl<T> Borrow<T> for Cow<'_, T> where T: Cowable + ?Sized,", "borrow"),
+         ("impl<A, B> PartialEq<Cow<'_, B>> for Cow<'_, A> where A: Cowable + ?Sized, B: Cowable + ?Sized, A: PartialEq<B>,", "eq"),
+         ("impl<T> fmt::Debug for Cow<'_, T> where T: Cowable + fmt::Debug + ?Sized,", "fmt"),
+         ("impl<T> fmt::Display for Cow<'_, T> where T: Cowable + fmt::Display + ?Sized,", "fmt"),
+         ("UNSAFE impl<T: Cowable + Sync + ?Sized> Sync for Cow<'_, T>", "-"),
+         ("UNSAFE impl<T: Cowable + Send + ?Sized> Send for Cow<'_, T>", "-"),
+         ("impl Metadata", "len capacity kind shared borrowed owned"),
+         ("impl Cowable for str", "borrowed_into_parts owned_into_parts shared_into_parts borrowed_from_parts owned_from_parts clone_from_parts drop_from_parts"),
+         ("impl<T> Cowable for [T] where T: Clone,", "borrowed_into_parts owned_into_parts shared_into_parts borrowed_from_parts owned_from_parts clone_from_parts drop_from_parts")] := rfl
+
+/-- **what the trait methods forward to**: every comparison, hash and formatting method reads both sides through
+    `deref` and hands them to the element type's own implementation (they own nothing, so an unwinding element
+    operation leaves nothing behind — `readUnwind_changes_nothing`); `clone` builds the new value from
+    `clone_from_parts` alone -/
+theorem src_forwarding :
+    Generated.cow_forwarding_bodies
+      = [("Deref::deref", "let borrowed_ptr = T::borrowed_from_parts(self.ptr, &self.metadata); UNSAFE { borrowed_ptr.as_ref().unwrap() }"),
+         ("Clone::clone", "#[cfg(metrics_verif)] crate::key::verif_key_hook::point(\"cow-clone\"); let (ptr, metadata) = T::clone_from_parts(self.ptr, &self.metadata); Self { ptr, metadata, _lifetime: PhantomData }"),
+         ("Hash::hash", "self.deref().hash(state)"),
+         ("Default::default", "Cow::from_borrowed(Default::default())"),
+         ("PartialOrd::partial_cmp", "PartialOrd::partial_cmp(self.deref(), other.deref())"),
+         ("Ord::cmp", "Ord::cmp(self.deref(), other.deref())"),
+         ("AsRef::as_ref", "self.borrow()"),
+         ("Borrow::borrow", "self.deref()"),
+         ("PartialEq::eq", "self.deref() == other.deref()"),
+         ("fmt::Debug::fmt", "self.deref().fmt(f)"),
+         ("fmt::Display::fmt", "self.deref().fmt(f)")] := rfl
+
 /-! ## non-vacuity: concrete sequences (evaluated by the kernel) -/
 
 /-- the sequences below are well-formed, so the hypotheses of the theorems above are satisfiable -/
@@ -685,6 +845,28 @@ example : wfRun init demoUnwind = true := by decide
 example : (match run init demoUnwind with
     | .ok s => s.vals.all (·.isNone) && liveAllocs s == 0 && s.vecs.all (fun c => !c.live && c.frees == 1)
                 && s.arcs.all (fun c => !c.live && c.frees == 1 && c.strong == 0) && s.vecs.length == 1
+    | .error _ => false) = true := by decide
+
+/-- `clone_from` and unwinding comparisons inside a longer sequence: every kind as destination and as source,
+    a failed `clone_from` in between; everything is released exactly once at the end -/
+def demoCloneFrom : List Op :=
+  [ .newArc [1, 2], .fromShared 0,                   -- a0, h0 shared (strong 2)
+    .fromOwned [3, 4, 5] 8, .fromOwned [6] 1,        -- h1, h2 owned
+    .fromBorrowed [9, 9],                            -- h3 borrowed
+    .cloneFromUnwind 1 2,                            -- unwinds: h1 keeps [3,4,5]
+    .readUnwind 1 2,
+    .cloneFrom 1 2,                                  -- h1 dies, h4 = copy of [6] (exact capacity); old buffer freed
+    .cloneFrom 2 0,                                  -- owned ← shared: h2's buffer freed, h5 shared (strong 3)
+    .cloneFrom 0 3,                                  -- shared ← borrowed: one reference given back, h6 borrowed
+    .cloneFromUnwind 3 5,                            -- shared source: no user code, ordinary clone_from → h7
+    .deref 4, .eq 5 7,
+    .drop 4, .drop 5, .drop 6, .drop 7, .dropArc 0 ]
+
+example : wfRun init demoCloneFrom = true := by decide
+
+example : (match run init demoCloneFrom with
+    | .ok s => s.vals.all (·.isNone) && liveAllocs s == 0 && s.vecs.all (fun c => !c.live && c.frees == 1)
+                && s.arcs.all (fun c => !c.live && c.frees == 1 && c.strong == 0) && s.vecs.length == 3
     | .error _ => false) = true := by decide
 
 /-- a caller error is reported as such, not as a memory error -/
